@@ -113,6 +113,14 @@ func (h *EntryHandler) Handle(ctx context.Context, q *dns.Msg, serverMeta server
 		resp.SetReply(q)
 		resp.Rcode = dns.RcodeRefused
 	}
+	// An extended rcode lives in the OPT record. It cannot be sent to
+	// a client that does not speak EDNS0 (the msg cannot even be packed).
+	if resp.Rcode > 0xF && qCtx.RespOpt() == nil {
+		resp = new(dns.Msg)
+		resp.SetReply(q)
+		resp.Rcode = dns.RcodeServerFailure
+	}
+
 	// We assume that our server is a forwarder.
 	resp.RecursionAvailable = true
 
